@@ -401,6 +401,15 @@ pub fn stress_main(threads: usize, rounds: usize, n_items: usize) -> i32 {
         "#table(columns: 2, [a], [b], [c], [d])",
         "#{ let x = (1, 2, 3).map(i => i * 2); x }",
     ];
+    let mut texts: Vec<String> = texts.iter().map(|t| t.to_string()).collect();
+    if n_items > texts.len() {
+        // the sanitizer builds with room for more (ThreadSanitizer): an even sample of the committed corpus
+        let mut pool = crate::corpus::snippets();
+        pool.extend(crate::corpus::adversarial());
+        let want = n_items - texts.len();
+        let step = (pool.len() / want.max(1)).max(1);
+        texts.extend(pool.iter().step_by(step).take(want).filter(|c| c.text.len() < 2000).map(|c| c.text.clone()));
+    }
     let items: Vec<Item> = texts
         .iter()
         .take(n_items.max(2))
